@@ -10,6 +10,9 @@ import (
 type propFilter struct {
 	Kinds  []string `json:"kinds"`
 	Labels []string `json:"labels"`
+	// ExcludeLabels: keep everything except obligations of clauses with these labels
+	// (clauses of a shared function that belong to another property's statement)
+	ExcludeLabels []string `json:"exclude_labels"`
 }
 
 // applyPropFilter drops, for properties listed in prop_filters.json, the obligations that do
@@ -30,7 +33,7 @@ func applyPropFilter(prop string, results []*FuncResult) {
 	for _, r := range results {
 		var keep []*Obligation
 		for _, o := range r.Obligations {
-			ok := false
+			ok := len(pf.Kinds) == 0 && len(pf.Labels) == 0
 			for _, k := range pf.Kinds {
 				if o.Kind == k {
 					ok = true
@@ -39,6 +42,11 @@ func applyPropFilter(prop string, results []*FuncResult) {
 			for _, l := range pf.Labels {
 				if strings.Contains(o.Name, "["+l) {
 					ok = true
+				}
+			}
+			for _, l := range pf.ExcludeLabels {
+				if strings.Contains(o.Name, "["+l+"]") {
+					ok = false
 				}
 			}
 			if ok {
